@@ -104,6 +104,14 @@ def run_scenario(sc, drop_index=None):
         dlog.append((k, clock_ms(), seq))
         if drop_index is not None and k == drop_index:
             return []
+        if sc.get('adversary') == 'late-advertisements':
+            # the link holds back every datagram that advertises a pointer (TTL > 0) for the full 100 ms and passes everything else at once
+            from zeroconf import DNSIncoming
+            try:
+                adv = any(r.type == 12 and r.ttl > 0 for r in DNSIncoming(data).answers())
+            except Exception:  # noqa: BLE001
+                adv = False
+            return [100 if adv else 1]
         d = [prng.randint(0, 100)]
         if prng.random() < sc['dup']:
             d.append(prng.randint(0, 100))
@@ -120,7 +128,7 @@ def run_scenario(sc, drop_index=None):
             for h in range(sc['nh']):
                 hosts.append(await sim.start_host(f"H{h}", f"10.0.0.{1 + h}"))
             sim.randoms['mcast_delay'] = [prng.choice([20, 70, 120]) for _ in range(4000)]
-            sim.randoms['first_query_delay'] = [prng.choice([20, 57, 120]) for _ in range(50)]
+            sim.randoms['first_query_delay'] = [sc['fq']] * 50 if sc.get('fq') else [prng.choice([20, 57, 120]) for _ in range(50)]
             sim.randoms['lookup_jitter'] = [prng.choice([20, 57, 120]) for _ in range(2000)]
             infos = {}
             current = {i: dict(s) for i, s in enumerate(sc['svcs'])}
@@ -293,6 +301,14 @@ def explore(ctx, sc, budget):
     runs = 1
     if why:
         return runs, dict(scenario=jsonable(sc), drop_index=None, why=why, tags=scenario_tags(sc))
+    # further delivery schedules of the same scenario (other delays, duplicates and orders on the link), loss-free
+    for sd in sc.get('more_seeds', ()):
+        sc2 = dict(sc, seed=sd)
+        r2 = run_scenario(sc2, None)
+        runs += 1
+        why = oracle(sc2, r2)
+        if why:
+            return runs, dict(scenario=jsonable(sc2), drop_index=None, why=why, tags=scenario_tags(sc2))
     n = base['deliveries']
     if sc['drop'] is None or n == 0:
         return runs, None
@@ -342,6 +358,19 @@ def run(ctx):
     s1 = dict(s0, name='i1.' + TYPES[0], server='host2.local.', port=1001, v4=[bytes([10, 0, 0, 3])], host=2)
     corpus.append(dict(nh=3, svcs=[s0, s1], browsers=[dict(host=1, types=[TYPES[0]])],
                        ops=[(1000, 'browse', 0), (2000, 'register', 0), (1502000, 'register', 1)], end=6200000, seed=2, dup=0.0, drop='all', lookups=True))
+    # an answer still in flight when the service is withdrawn: a browser starts 30-130 ms before the unregister, so the answer to its first
+    # query leaves just before the goodbyes and may arrive (up to 100 ms late) after the first of them - the second and third goodbye,
+    # 125 and 250 ms later, must still withdraw it; forty delivery schedules
+    # (the browser starts 5000 s after the announcements, when the pointer has expired from its host's cache: its first query carries no
+    # known answer and is answered by multicast)
+    B0 = 5000000
+    for gap in (30, 80, 130):
+        corpus.append(dict(nh=2, svcs=[s0], browsers=[dict(host=1, types=[TYPES[0]])],
+                           ops=[(1000, 'register', 0), (B0, 'browse', 0), (B0 + gap, 'unregister', 0)], end=B0 + 60000, seed=100 + gap, dup=0.1,
+                           drop=None, lookups=False, fq=20, more_seeds=list(range(200 + gap, 208 + gap))))
+        corpus.append(dict(nh=2, svcs=[s0], browsers=[dict(host=1, types=[TYPES[0]])],
+                           ops=[(1000, 'register', 0), (B0, 'browse', 0), (B0 + gap, 'unregister', 0)], end=B0 + 60000, seed=300 + gap, dup=0.0,
+                           drop=None, lookups=False, adversary='late-advertisements', fq=20))
     for k in range(n + len(corpus)):
         sc = corpus[k] if k < len(corpus) else gen_scenario(rng)
         runs, fail = explore(ctx, sc, 10 ** 6 if sc['drop'] == 'all' else budget)
